@@ -60,6 +60,12 @@ def lerp (pts : Array (Float × Float)) (x : Float) : Float :=
     let slope := (yh - yl) / (xh - xl)
     slope * (x - xl) + yl
 
+/-- Python `round(x)`: nearest integer, ties to even -/
+def roundHE (x : Float) : Float :=
+  let f := x.floor
+  let d := x - f
+  if d < 0.5 then f else if d > 0.5 then f + 1 else (if (f / 2).floor * 2 == f then f else f + 1)
+
 def carrier (st : St) : TC V where
   num := fun t => match st.lits.lookup t with
     | some x => .f x
@@ -86,6 +92,7 @@ def carrier (st : St) : TC V where
     | .fn "max", [a, b] => if b.num > a.num then b else a           -- Python max(a, b)
     | .fn "min", [a, b] => if b.num < a.num then b else a           -- Python min(a, b)
     | .fn "abs", [a] => .f a.num.abs
+    | .fn "round", [a] => .f (roundHE a.num)
     | .fn "model._lookup", [x, .s tbl] => match st.points.lookup tbl with
       | some pts => .f (lerp pts.toArray x.num)
       | none => .bad ("points " ++ tbl)
